@@ -524,6 +524,9 @@ impl Local {
             self.collecting.set(false);
         }
 
+        // A deferred function that ran above may have taken a guard that is still alive: count
+        // from the current value, not from the one read before the collection.
+        let guard_count = self.guard_count.get();
         self.guard_count.set(guard_count - 1);
         if guard_count == 1 {
             self.epoch.store(Epoch::starting(), Ordering::Release);
